@@ -1,4 +1,5 @@
 import Proofs.Tcp.Signal
+import Proofs.Tcp.Close
 import Proofs.Tcp.NoErr
 /-!
 # C15 — CoAP over TCP: framing independent of segmentation, signalling rules enforced
@@ -10,10 +11,14 @@ Model: `AiocoapModel/Tcp/Frame.lean` (`extractSize`, `decodeMessage`, `encodeLen
 cutting it into chunks, every message and every connection state named in their hypotheses;
 there is no bound on lengths or on the number of frames or chunks.
 
-"Up to and including the first close": the code keeps draining the chunk it is working on after
-a peer Release/Abort (and after an abort raised from inside signalling processing, which does
-not raise), but a closed transport is never fed again.  That chunk-dependent tail is modelled as
-it is and excluded from the chunking claim by `uptoClose`.
+The model follows the code after two fixes (findings/C15.json): once an Abort was sent — or the
+peer's Release/Abort was processed — `data_received` returns and nothing that follows in the
+stream is processed; a CSM that is answered with an Abort is not recorded as received.  An
+earlier version of this file claimed chunking independence only "up to and including the first
+close" and modelled the code's draining of the rest of the chunk after a close as it was.  That
+exclusion was a mistake of the verification (the behaviour contradicts the property: what was
+dispatched depended on the segmentation) and is withdrawn: the chunking theorems below are about
+the whole output and the final state.
 -/
 set_option linter.unusedSimpArgs false
 namespace Aiocoap.Tcp
@@ -60,6 +65,53 @@ theorem C15_serialize_rejects_long_token (m : Msg) (h : m.token.length > 8) :
   · rfl
   · simp [h]
 
+/-- **C15 (requests are sent as they are).** `_TCPPooling.send_message` hands a request (any
+message that is not a response) to the connection unchanged: what is written is the RFC 8323
+frame of exactly that message, with all its options — No-Response (258) included — and the
+request is never dropped. -/
+theorem C15_send_request_exact (m : Msg) (hreq : ¬ (64 ≤ m.code ∧ m.code < 192)) :
+    poolSend m = sendMessage m ∧ poolSend m ≠ [] ∧
+    ∀ b, poolSend m = [.write b] → Rfc8323.Message b m ∧ serialize m = some b := by
+  have h : poolSend m = sendMessage m := by unfold poolSend; rw [if_neg hreq]
+  refine ⟨h, ?_, fun b hb => ?_⟩
+  · rw [h]; unfold sendMessage; split <;> simp
+  · rw [h] at hb
+    unfold sendMessage at hb
+    split at hb
+    · rename_i b' hb'
+      simp only [List.cons.injEq, Out.write.injEq, and_true] at hb
+      subst hb
+      exact ⟨serialize_message hb', hb'⟩
+    · simp at hb
+
+/-- **C15 (responses and No-Response).** On a response the No-Response option is aiocoap's
+internal marker taken over from the request: the response is not written at all when the bit of
+its class (2.xx: 2, 4.xx: 8, 5.xx: 16) is set in the value, and otherwise what is written is the
+RFC 8323 frame of the response without that option (everything else identical). -/
+theorem C15_send_response_no_response (m : Msg) (hresp : 64 ≤ m.code ∧ m.code < 192) :
+    ((noResponseOf m.opts).testBit (m.code / 32 - 1) = true → poolSend m = []) ∧
+    ((noResponseOf m.opts).testBit (m.code / 32 - 1) = false →
+      poolSend m = sendMessage { m with opts := m.opts.filter (fun o => o.num != 258) } ∧
+      ∀ b, poolSend m = [.write b] →
+        Rfc8323.Message b { m with opts := m.opts.filter (fun o => o.num != 258) }) := by
+  constructor
+  · intro hbit
+    unfold poolSend
+    rw [if_pos hresp, if_pos hbit]
+  · intro hbit
+    have h : poolSend m = sendMessage { m with opts := m.opts.filter (fun o => o.num != 258) } := by
+      unfold poolSend
+      rw [if_pos hresp, if_neg (by simp [hbit])]
+    refine ⟨h, fun b hb => ?_⟩
+    rw [h] at hb
+    unfold sendMessage at hb
+    split at hb
+    · rename_i b' hb'
+      simp only [List.cons.injEq, Out.write.injEq, and_true] at hb
+      subst hb
+      exact serialize_message hb'
+    · simp at hb
+
 -- =============================================================================================
 -- 2. frame round trip
 -- =============================================================================================
@@ -82,29 +134,53 @@ theorem C15_rfc_frame_is_parsed (m : Msg) (b : Bytes) (hm : m.legal) (h : Rfc832
 -- 3. chunking independence
 -- =============================================================================================
 
-/-- **C15 (chunking independence).** For every stream and every way `cs` of cutting it into
-chunks (empty chunks and single bytes included), a new connection produces the same outputs —
-dispatches, writes, failures of pending requests, close — up to and including the first close
-as when the whole stream arrives in one piece. -/
-theorem C15_chunking_independent (M : Nat) (cs : List Bytes) :
-    uptoClose (feedAll (fresh M) cs).2 = uptoClose (feed (fresh M) cs.flatten).2 :=
-  chunking_uptoClose cs (fresh M) (fresh_facts M).1 (fresh_facts M).2.1
+/-- two connection states that differ only by bytes spooled behind a close are the same `live`
+state -/
+theorem live_eq_of_app {a b : Conn} {t : Bytes} (h : b = a.app t)
+    (ht : a.closed = false → t = []) : a.live = b.live := by
+  subst h
+  cases hc : a.closed with
+  | true => cases a; simp_all [Conn.live, Conn.app]
+  | false => rw [ht hc, Conn.app_nil]
 
-/-- two ways of cutting the same stream are indistinguishable up to the first close -/
+/-- **C15 (chunking independence).** For every stream and every way `cs` of cutting it into
+chunks (empty chunks and single bytes included), a new connection produces exactly the same
+outputs — dispatches, writes, failures of pending requests, close; all of them, in order — as
+when the whole stream arrives in one piece, and ends in the same state.  "Same state": maximum
+size, remote settings and the closed flag are equal, and so is the spool as long as the
+transport is open.  After a close the uncut delivery has spooled the bytes behind the closing
+frame (`t`), which a chunked delivery partly never hands over (asyncio does not call
+`data_received` on a closing transport); nothing reads the spool of a closed connection
+(`Conn.live`). -/
+theorem C15_chunking_independent (M : Nat) (cs : List Bytes) :
+    (feedAll (fresh M) cs).2 = (feed (fresh M) cs.flatten).2 ∧
+    (feedAll (fresh M) cs).1.live = (feed (fresh M) cs.flatten).1.live ∧
+    ∃ t, (feed (fresh M) cs.flatten).1 = { (feedAll (fresh M) cs).1 with
+        spool := (feedAll (fresh M) cs).1.spool ++ t } ∧
+      ((feedAll (fresh M) cs).1.closed = false → t = []) := by
+  obtain ⟨h1, t, h2, h3⟩ := chunking_full cs (fresh M) (fresh_facts M).1 (fresh_facts M).2.1
+  exact ⟨h1, live_eq_of_app h2 h3, t, h2, h3⟩
+
+/-- two ways of cutting the same stream are indistinguishable: same outputs, same final state -/
 theorem C15_chunking_independent_pair (M : Nat) (cs cs' : List Bytes)
     (h : cs.flatten = cs'.flatten) :
-    uptoClose (feedAll (fresh M) cs).2 = uptoClose (feedAll (fresh M) cs').2 := by
-  rw [C15_chunking_independent, C15_chunking_independent M cs', h]
+    (feedAll (fresh M) cs).2 = (feedAll (fresh M) cs').2 ∧
+    (feedAll (fresh M) cs).1.live = (feedAll (fresh M) cs').1.live := by
+  obtain ⟨a1, a2, _⟩ := C15_chunking_independent M cs
+  obtain ⟨b1, b2, _⟩ := C15_chunking_independent M cs'
+  rw [a1, a2, b1, b2, h]
+  exact ⟨rfl, rfl⟩
 
 /-- the same from any state in which the receive loop is waiting (i.e. mid-stream, with part of
 a frame in the spool and any remote settings) -/
 theorem C15_chunking_independent_midstream (c : Conn) (hq : c.quiet) (hopen : c.closed = false)
     (cs : List Bytes) :
-    uptoClose (feedAll c cs).2 = uptoClose (feed c cs.flatten).2 :=
-  chunking_uptoClose cs c hq hopen
+    (feedAll c cs).2 = (feed c cs.flatten).2 ∧ (feedAll c cs).1.live = (feed c cs.flatten).1.live := by
+  obtain ⟨h1, t, h2, h3⟩ := chunking_full cs c hq hopen
+  exact ⟨h1, live_eq_of_app h2 h3⟩
 
-/-- when the stream does not make the connection close, all outputs *and the final state*
-(spool remainder, remote settings) are independent of the chunking -/
+/-- when the stream does not make the connection close, all outputs *and the final state as it
+is* (spool remainder, remote settings) are independent of the chunking -/
 theorem C15_chunking_independent_open (c : Conn) (hq : c.quiet) (cs : List Bytes)
     (hopen : (feed c cs.flatten).1.closed = false) :
     feedAll c cs = feed c cs.flatten :=
@@ -158,8 +234,13 @@ theorem C15_dispatch_exact (M : Nat) (csm : Msg) (bcsm : Bytes) (ms : List Msg) 
           { maxSize := M, spool := s, csm := none, closed := false } := by
         simp [Conn.consume, Conn.app, fresh, connectionMade]
       rw [hc1]
-      simp [processSignaling, hcode, csmOpts_noCritical _ hnc, Conn.note]
+      have hc : csmOpts ((none : Option Settings).getD {}) csm.opts =
+          ((csmOpts {} csm.opts).1, none) := by
+        have := csmOpts_noCritical {} hnc
+        exact Prod.ext rfl this
+      rw [ps_csm_ok hcode hc]
     rw [hps] at hstep
+    simp only [Bool.false_eq_true, ↓reduceIte] at hstep
     rw [drain_eq, hstep]
     simp only
     rw [drain_stream hs _ rfl (by simp) rfl]
@@ -178,18 +259,20 @@ remote settings are still unset afterwards (no CSM has been processed), then the
 before and no message at all has been handed to the token manager.  Since this holds for every
 prefix of every chunk sequence and chunk borders are arbitrary (theorem 3), no request or
 response is ever dispatched before the CSM. -/
-theorem C15_no_dispatch_before_csm (c : Conn) (cs : List Bytes)
-    (h : (feedAll c cs).1.csm = none) :
-    c.csm = none ∧ dispatched (feedAll c cs).2 = [] := by
-  obtain ⟨h1, h2⟩ := feedAll_csm cs c h
-  refine ⟨h1, ?_⟩
-  generalize (feedAll c cs).2 = outs at h2
+theorem dispatched_nil_of_no_dispatch {outs : List Out}
+    (h2 : ∀ x ∈ outs, x.isDispatch = false) : dispatched outs = [] := by
   induction outs with
   | nil => rfl
   | cons o os ih =>
     have ho := h2 o (List.mem_cons_self)
     have hos := ih (fun x hx => h2 x (List.mem_cons_of_mem _ hx))
     cases o <;> simp_all [dispatched, Out.isDispatch]
+
+theorem C15_no_dispatch_before_csm (c : Conn) (cs : List Bytes)
+    (h : (feedAll c cs).1.csm = none) :
+    c.csm = none ∧ dispatched (feedAll c cs).2 = [] := by
+  obtain ⟨h1, h2⟩ := feedAll_csm cs c h
+  exact ⟨h1, dispatched_nil_of_no_dispatch h2⟩
 
 /-- **C15 (CSM gate, the step).** While no CSM has been received, a complete, well-formed,
 in-limit frame of a request, response or empty message is answered by Abort ("No CSM received")
@@ -295,39 +378,34 @@ theorem C15_tkl_above_8_aborts (c : Conn) (to tkl len : Nat)
   simp [extractSize_take hx, htkl]
 
 /-- **C15 (critical option in Ping/Pong/Release/Abort).** If such a message carries an option
-with an odd number, the first thing the endpoint does is write Abort ("Unknown critical
-option") and close. -/
+with an odd number, the endpoint writes Abort ("Unknown critical option"), closes, and does
+nothing else: no Pong, no second Abort for a second such option, no further processing of the
+message; the remote settings are untouched. -/
 theorem C15_critical_option_aborts (c : Conn) (m : Msg)
     (hcode : m.code = codePing ∨ m.code = codePong ∨ m.code = codeRelease ∨ m.code = codeAbort)
     (hcrit : ¬ noCritical m.opts) :
-    ∃ w post, (processSignaling c m).2 = .write w :: .close :: post ∧
-      (processSignaling c m).1.closed = true ∧
+    ∃ w, (processSignaling c m).2 = [.write w, .close] ∧
+      (processSignaling c m).1.closed = true ∧ (processSignaling c m).1.csm = c.csm ∧
       Rfc8323.Message w (abortMsg txtUnknownCritical none) := by
   have hser : (serialize (abortMsg txtUnknownCritical none)).isSome = true := by decide
   obtain ⟨w, hw⟩ := Option.isSome_iff_exists.mp hser
-  obtain ⟨post, hpost⟩ := otherOpts_critical hcrit
   have habort : abortOuts txtUnknownCritical none = [.write w, .close] := by
     simp [abortOuts, sendMessage, hw]
-  have hcl := processSignaling_closed c m
-  rcases hcode with h | h | h | h <;>
-    · simp only [processSignaling, h, codeCSM, codePing, codePong, codeRelease, codeAbort,
-        Nat.reduceEqDiff, ↓reduceIte, hpost, habort, List.cons_append, List.nil_append,
-        List.append_assoc] at hcl ⊢
-      refine ⟨w, _, rfl, ?_, serialize_message hw⟩
-      simp [Conn.note, Out.isClose]
+  rw [ps_crit hcode ((hasCritical_true_iff _).mpr hcrit), habort]
+  exact ⟨w, rfl, by simp [Out.isClose], rfl, serialize_message hw⟩
 
 /-- **C15 (critical option in a CSM).** An option with an odd number in a CSM (2 and 4 are the
 known, even ones) makes the endpoint write Abort ("Option not supported", naming the option in
-Bad-CSM-Option) and close, before anything else it outputs.  `hnum`: the option number fits in
-12 bytes, which holds for every number that can be reached inside a frame of less than 2^64
-bytes (numbers grow by at most 65804 per option). -/
+Bad-CSM-Option), close, and do nothing else; the CSM is not recorded (`_remote_settings` stays
+what it was).  `hnum`: the option number fits in 12 bytes, which holds for every number that can
+be reached inside a frame of less than 2^64 bytes (numbers grow by at most 65804 per option). -/
 theorem C15_critical_csm_option_aborts (c : Conn) (m : Msg) (hcode : m.code = codeCSM)
     (hcrit : ¬ noCritical m.opts) (hnum : ∀ o ∈ m.opts, (minBE o.num).length < 13) :
-    ∃ n w post, n % 2 = 1 ∧ (∃ o ∈ m.opts, o.num = n) ∧
-      (processSignaling c m).2 = .write w :: .close :: post ∧
-      (processSignaling c m).1.closed = true ∧
+    ∃ n w, n % 2 = 1 ∧ (∃ o ∈ m.opts, o.num = n) ∧
+      (processSignaling c m).2 = [.write w, .close] ∧
+      (processSignaling c m).1.closed = true ∧ (processSignaling c m).1.csm = c.csm ∧
       Rfc8323.Message w (abortMsg txtOptNotSupported (some n)) := by
-  obtain ⟨n, post, hodd, ⟨o, ho, hon⟩, hpost⟩ := csmOpts_critical (c.csm.getD {}) hcrit
+  obtain ⟨n, hodd, ⟨o, ho, hon⟩, hpost⟩ := csmOpts_critical (c.csm.getD {}) hcrit
   have hlen : (minBE n).length < 13 := by
     have := hnum o ho
     rwa [hon] at this
@@ -339,54 +417,56 @@ theorem C15_critical_csm_option_aborts (c : Conn) (m : Msg) (hcode : m.code = co
   obtain ⟨w, hw⟩ := hser
   have habort : abortOuts txtOptNotSupported (some n) = [.write w, .close] := by
     simp [abortOuts, sendMessage, hw]
-  refine ⟨n, w, post, hodd, ⟨o, ho, hon⟩, ?_, ?_, serialize_message hw⟩
-  · simp [processSignaling, hcode, hpost, habort]
-  · rw [processSignaling_closed]
-    simp [processSignaling, hcode, hpost, habort, Out.isClose]
+  have hc : csmOpts (c.csm.getD {}) m.opts = ((csmOpts (c.csm.getD {}) m.opts).1, some n) :=
+    Prod.ext rfl hpost
+  rw [ps_csm_bad hcode hc, habort]
+  exact ⟨n, w, hodd, ⟨o, ho, hon⟩, rfl, by simp [Out.isClose], rfl, serialize_message hw⟩
 
 -- =============================================================================================
 -- 7. Ping → Pong with the same token
 -- =============================================================================================
 
-/-- **C15 (Ping).** A Ping is answered by writing the RFC 8323 frame of a Pong with the same
-token and no options or payload; with no critical option on the Ping that is all that happens
-(and it happens whether or not the CSM has been received). -/
+/-- **C15 (Ping).** A Ping without critical options is answered by writing the RFC 8323 frame
+of a Pong with the same token and no options or payload, and that is all that happens (whether or
+not the CSM has been received); a Ping with a critical option is answered by the Abort of
+`C15_critical_option_aborts` and by no Pong. -/
 theorem C15_ping_pong_token (c : Conn) (m : Msg) (hcode : m.code = codePing)
     (htok : m.token.length ≤ 8) :
     ∃ w, Rfc8323.Message w { code := codePong, token := m.token, opts := [], payload := [] } ∧
-      (processSignaling c m).2 = otherOpts m.opts ++ [.write w] ∧
-      (noCritical m.opts → processSignaling c m = (c.note [.write w], [.write w]) ∧
-        (c.note [.write w]) = c) := by
+      (noCritical m.opts → processSignaling c m = (c, [.write w])) ∧
+      (¬ noCritical m.opts → (processSignaling c m).2 = abortOuts txtUnknownCritical none) := by
   have hser : ∃ w, serialize { code := codePong, token := m.token, opts := [], payload := [] }
       = some w := by
     have : ¬ m.token.length > 8 := by omega
     simp [serialize, encodeOpts, this, frameBytes, encodeLength, payloadPart]
   obtain ⟨w, hw⟩ := hser
-  refine ⟨w, serialize_message hw, ?_, fun hnc => ?_⟩
-  · simp [processSignaling, hcode, codeCSM, codePing, sendMessage, hw]
-  · constructor
-    · simp [processSignaling, hcode, codeCSM, codePing, sendMessage, hw, otherOpts_noCritical hnc]
-    · cases c; simp [Conn.note, Out.isClose]
+  refine ⟨w, serialize_message hw, fun hnc => ?_, fun hcrit => ?_⟩
+  · rw [ps_ping hcode ((hasCritical_false_iff _).mpr hnc)]
+    simp only [sendMessage, hw]
+    cases c; simp [Conn.note, Out.isClose]
+  · rw [ps_crit (Or.inl hcode) ((hasCritical_true_iff _).mpr hcrit)]
 
 /-- the same at the level of the receive loop: a Ping frame at the head of the spool is consumed
-and answered -/
+and answered, and the loop goes on (on a transport that is already closing it returns) -/
 theorem C15_ping_frame_answered (c : Conn) (b rest : Bytes) (m : Msg)
     (hs : c.spool = b ++ rest) (hb : Rfc8323.Message b m) (hm : m.legal)
     (hsize : b.length ≤ c.maxSize) (hcode : m.code = codePing) (hnc : noCritical m.opts) :
     ∃ w, Rfc8323.Message w { code := codePong, token := m.token, opts := [], payload := [] } ∧
-      step c = .next { c with spool := rest } [.write w] := by
+      step c = if c.closed then .stop { c with spool := rest } [.write w]
+               else .next { c with spool := rest } [.write w] := by
   obtain ⟨hrest, hstep⟩ := step_of_frame hs hb hm hsize
   obtain ⟨_, htok, _⟩ := decodeMessage_of_message hm hb
-  obtain ⟨w, hw, _, hall⟩ := C15_ping_pong_token (c.consume b.length) m hcode htok
-  obtain ⟨hp, hn⟩ := hall hnc
+  obtain ⟨w, hw, hall, _⟩ := C15_ping_pong_token (c.consume b.length) m hcode htok
+  have hp := hall hnc
   have h224 : m.code ≥ 224 := by rw [hcode]; decide
-  simp only [h224, ↓reduceIte, hp, hn] at hstep
+  simp only [h224, ↓reduceIte, hp, Conn.consume_closed] at hstep
   refine ⟨w, hw, ?_⟩
   rw [hstep]
-  congr 1
-  cases c
-  simp [Conn.consume] at hrest ⊢
-  exact hrest
+  have : c.consume b.length = { c with spool := rest } := by
+    cases c
+    simp [Conn.consume] at hrest ⊢
+    exact hrest
+  rw [this]
 
 -- =============================================================================================
 -- 8. Release / Abort from the peer
@@ -400,45 +480,55 @@ theorem C15_release_abort_fail_pending (c : Conn) (m : Msg)
     (processSignaling c m).2 =
       [.failPending (if m.code = codeRelease then .released else .aborted), .close] ∧
     (processSignaling c m).1.closed = true := by
+  have hcrit := (hasCritical_false_iff _).mpr hnc
   rcases hcode with h | h
-  · simp [processSignaling, h, codeCSM, codePing, codePong, codeRelease,
-      otherOpts_noCritical hnc, Conn.note, Out.isClose]
-  · simp [processSignaling, h, codeCSM, codePing, codePong, codeRelease, codeAbort,
-      otherOpts_noCritical hnc, Conn.note, Out.isClose]
+  · rw [ps_release h hcrit]
+    simp [h, Out.isClose]
+  · rw [ps_abort h hcrit]
+    simp [h, codeAbort, codeRelease, Out.isClose]
 
-/-- in any case — critical options or not — a Release/Abort ends with the pending requests
-failed and the connection closed, and no later chunk is processed -/
+/-- in any case — critical options or not — a Release/Abort ends with the connection closed, and
+no later chunk is processed: either the pending requests are failed and the transport closed, or
+(critical option) Abort is written and the transport closed — then the pending requests are failed
+by `connection_lost` (`C15_close_fails_pending`) -/
 theorem C15_release_abort_closes (c : Conn) (m : Msg)
     (hcode : m.code = codeRelease ∨ m.code = codeAbort) (later : List Bytes) :
-    (∃ pre k, (processSignaling c m).2 = pre ++ [.failPending k, .close]) ∧
+    ((noCritical m.opts ∧ ∃ k, (processSignaling c m).2 = [.failPending k, .close]) ∨
+     (¬ noCritical m.opts ∧ (processSignaling c m).2 = abortOuts txtUnknownCritical none)) ∧
+    (processSignaling c m).1.closed = true ∧
     feedAll (processSignaling c m).1 later = ((processSignaling c m).1, []) := by
-  have hcl : (processSignaling c m).1.closed = true := by
-    rw [processSignaling_closed]
-    rcases hcode with h | h <;>
-      simp [processSignaling, h, codeCSM, codePing, codePong, codeRelease, codeAbort, Out.isClose]
-  refine ⟨?_, feedAll_closed hcl later⟩
-  rcases hcode with h | h
-  · exact ⟨otherOpts m.opts, .released, by
-      simp [processSignaling, h, codeCSM, codePing, codePong, codeRelease]⟩
-  · exact ⟨otherOpts m.opts, .aborted, by
-      simp [processSignaling, h, codeCSM, codePing, codePong, codeRelease, codeAbort]⟩
+  have hother : m.isOther := by
+    rcases hcode with h | h
+    · exact Or.inr (Or.inr (Or.inl h))
+    · exact Or.inr (Or.inr (Or.inr h))
+  by_cases hnc : noCritical m.opts
+  · obtain ⟨h1, h2⟩ := C15_release_abort_fail_pending c m hcode hnc
+    exact ⟨Or.inl ⟨hnc, _, h1⟩, h2, feedAll_closed h2 later⟩
+  · have hp := ps_crit (c := c) hother ((hasCritical_true_iff _).mpr hnc)
+    have hcl : (processSignaling c m).1.closed = true := by
+      rw [hp]; simp [abortOuts_any_close]
+    exact ⟨Or.inr ⟨hnc, by rw [hp]⟩, hcl, feedAll_closed hcl later⟩
 
 /-- at the level of the receive loop: a Release/Abort frame (no critical options) at the head of
-the spool fails the pending requests, closes, and whatever is fed later is not processed -/
+the spool fails the pending requests, closes, the loop returns, and whatever follows — in the
+same chunk or later — is not processed -/
 theorem C15_release_frame (c : Conn) (b rest : Bytes) (m : Msg)
     (hs : c.spool = b ++ rest) (hb : Rfc8323.Message b m) (hm : m.legal)
     (hsize : b.length ≤ c.maxSize) (hcode : m.code = codeRelease ∨ m.code = codeAbort)
     (hnc : noCritical m.opts) :
-    ∃ c', step c = .next c'
+    ∃ c', step c = .stop c'
         [.failPending (if m.code = codeRelease then .released else .aborted), .close] ∧
-      c'.closed = true ∧ ∀ later, feedAll c' later = (c', []) := by
-  obtain ⟨_, hstep⟩ := step_of_frame hs hb hm hsize
+      drain c = (c',
+        [.failPending (if m.code = codeRelease then .released else .aborted), .close], true) ∧
+      c'.closed = true ∧ c'.spool = rest ∧ ∀ later, feedAll c' later = (c', []) := by
+  obtain ⟨hrest, hstep⟩ := step_of_frame hs hb hm hsize
   have h224 : m.code ≥ 224 := by
     rcases hcode with h | h <;> rw [h] <;> decide
-  simp only [h224, ↓reduceIte] at hstep
   obtain ⟨h1, h2⟩ := C15_release_abort_fail_pending (c.consume b.length) m hcode hnc
-  refine ⟨_, ?_, h2, fun later => feedAll_closed h2 later⟩
-  rw [hstep, h1]
+  simp only [h224, ↓reduceIte, h2] at hstep
+  rw [h1] at hstep
+  refine ⟨_, hstep, by rw [drain_eq, hstep], h2, ?_, fun later => feedAll_closed h2 later⟩
+  rw [processSignaling_spool]; exact hrest
 
 -- =============================================================================================
 -- 9. empty messages are ignored
@@ -493,48 +583,268 @@ theorem feedAll_closed_iff : ∀ (cs : List Bytes) (c : Conn),
       have hcf : c.closed = false := by cases h : c.closed <;> simp_all
       simp only [this, Bool.or_assoc, hcf]
 
-theorem sendMessage_no_close (m : Msg) : (sendMessage m).any Out.isClose = false := by
-  unfold sendMessage
-  split <;> rfl
-
-/-- outputs of a whole session up to the first close: the initial CSM, then those of the chunks -/
-theorem session_uptoClose (M : Nat) (cs : List Bytes) :
-    uptoClose (session M cs).2 = (connectionMade M).2 ++ uptoClose (feedAll (fresh M) cs).2 := by
-  have hcl := feedAll_closed_iff cs (fresh M)
-  simp only [(fresh_facts M).2.1, Bool.false_or] at hcl
-  have hw : (connectionMade M).2.any Out.isClose = false := sendMessage_no_close _
-  simp only [session]
-  change uptoClose ((connectionMade M).2 ++ (feedAll (fresh M) cs).2 ++
-    (if (feedAll (fresh M) cs).1.closed then connectionLost else [])) = _
-  rw [List.append_assoc, uptoClose_append, hw]
-  simp only [Bool.false_eq_true, ↓reduceIte, uptoClose_append]
-  cases hany : (feedAll (fresh M) cs).2.any Out.isClose with
-  | true => simp
-  | false =>
-    rw [hany] at hcl
-    simp [hcl, uptoClose_of_no_close hany, uptoClose]
+/-- a single chunk: `feedAll` is `feed` -/
+theorem feedAll_single (c : Conn) (hopen : c.closed = false) (x : Bytes) :
+    feedAll c [x] = feed c x := by
+  simp [feedAll, hopen]
 
 /-- **C15 (chunking independence, whole session).** What the driver and the harness run — the
-initial CSM, the chunks, `connection_lost` after a close — is, up to and including the first
-close, the same for every way of cutting the stream. -/
+initial CSM, the chunks, `connection_lost` after a close — gives the same outputs, all of them,
+and the same final state for every way of cutting the stream. -/
 theorem C15_chunking_independent_session (M : Nat) (cs : List Bytes) :
-    uptoClose (session M cs).2 = uptoClose (session M [cs.flatten]).2 := by
-  rw [session_uptoClose, session_uptoClose, C15_chunking_independent M cs,
-    C15_chunking_independent M [cs.flatten]]
-  simp
+    (session M cs).2 = (session M [cs.flatten]).2 ∧
+    (session M cs).1.live = (session M [cs.flatten]).1.live := by
+  obtain ⟨h1, h2, t, h3, _⟩ := C15_chunking_independent M cs
+  have hcl : (feed (fresh M) cs.flatten).1.closed = (feedAll (fresh M) cs).1.closed := by
+    rw [h3]
+  simp only [session]
+  change ((connectionMade M).2 ++ (feedAll (fresh M) cs).2 ++
+      (if (feedAll (fresh M) cs).1.closed then connectionLost else []) =
+    (connectionMade M).2 ++ (feedAll (fresh M) [cs.flatten]).2 ++
+      (if (feedAll (fresh M) [cs.flatten]).1.closed then connectionLost else [])) ∧
+    (feedAll (fresh M) cs).1.live = (feedAll (fresh M) [cs.flatten]).1.live
+  rw [feedAll_single _ (fresh_facts M).2.1, h1, hcl]
+  exact ⟨rfl, h2⟩
+
+-- =============================================================================================
+-- 11. a close is final; one Abort at most; a rejected CSM does not count
+-- =============================================================================================
+
+/-- **C15 (nothing after a close).** Whatever an open connection is fed, cut in whatever way:
+if `transport.close()` is among the outputs, it is the last one — nothing is dispatched, nothing
+is written, no pending request is failed a second time after it, neither from the rest of the
+chunk that closed the connection nor from later chunks. -/
+theorem C15_nothing_after_close (c : Conn) (hopen : c.closed = false) (cs : List Bytes)
+    (pre post : List Out) (h : (feedAll c cs).2 = pre ++ .close :: post) : post = [] :=
+  feedAll_close_last c hopen cs pre post h
+
+/-- the same for a whole session: after the close there is exactly the `connection_lost` that
+fails the pending requests, and before it no other close -/
+theorem C15_nothing_after_close_session (M : Nat) (cs : List Bytes) (pre post : List Out)
+    (h : (session M cs).2 = pre ++ .close :: post) :
+    post = [.failPending .lost] ∧ pre.any Out.isClose = false := by
+  have hopen := (fresh_facts M).2.1
+  obtain ⟨init, tail, e, hb, hcase⟩ := feedAll_shape cs (fresh M) hopen
+  have hA : (connectionMade M).2.any Out.isClose = false := sendMessage_no_close _
+  have hs : (session M cs).2 = (connectionMade M).2 ++ (feedAll (fresh M) cs).2 ++
+      (if (feedAll (fresh M) cs).1.closed then connectionLost else []) := rfl
+  rcases hcase with ⟨htail, hcl⟩ | ⟨hst, hcl⟩
+  · subst htail
+    have hno : (pre ++ Out.close :: post).any Out.isClose = false := by
+      rw [← h, hs, hcl, e]
+      simp [List.any_append, hA, benign_no_close hb]
+    simp [Out.isClose] at hno
+  · obtain ⟨tp, htp, hno⟩ := stopOuts_close_last hst
+    have hno' : ((connectionMade M).2 ++ (init ++ tp)).any Out.isClose = false := by
+      simp [List.any_append, hA, benign_no_close hb, hno]
+    have heq : pre ++ .close :: post =
+        ((connectionMade M).2 ++ (init ++ tp)) ++ .close :: [.failPending .lost] := by
+      rw [← h, hs, hcl, e, htp]
+      simp [connectionLost]
+    obtain ⟨r1, r2⟩ := close_unique _ _ _ _ hno' rfl heq
+    exact ⟨r2, by rw [r1]; exact hno'⟩
+
+/-- **C15 (a close fails the pending requests).** Every session in which the endpoint closes —
+after an Abort of its own or on the peer's Release/Abort — ends with `close` followed by the
+`connection_lost` that fails whatever requests are still pending on the connection. -/
+theorem C15_close_fails_pending (M : Nat) (cs : List Bytes) (h : (session M cs).1.closed = true) :
+    ∃ pre, (session M cs).2 = pre ++ [.close, .failPending .lost] := by
+  have hopen := (fresh_facts M).2.1
+  obtain ⟨init, tail, e, _, hcase⟩ := feedAll_shape cs (fresh M) hopen
+  have hs : (session M cs).2 = (connectionMade M).2 ++ (feedAll (fresh M) cs).2 ++
+      (if (feedAll (fresh M) cs).1.closed then connectionLost else []) := rfl
+  have hcl : (feedAll (fresh M) cs).1.closed = true := h
+  rcases hcase with ⟨_, hcl'⟩ | ⟨hst, _⟩
+  · rw [hcl] at hcl'; cases hcl'
+  · obtain ⟨tp, htp, _⟩ := stopOuts_close_last hst
+    refine ⟨(connectionMade M).2 ++ (init ++ tp), ?_⟩
+    rw [hs, hcl, e, htp]
+    simp [connectionLost]
+
+/-- **C15 (a single Abort).** Over any chunk history the endpoint writes at most one Abort
+message (a frame that decodes to code 7.05) — a second critical option, a second malformed
+frame or anything else behind the first offence does not produce another one. -/
+theorem C15_single_abort (c : Conn) (hopen : c.closed = false) (cs : List Bytes) :
+    ((feedAll c cs).2.filter Out.isAbortWrite).length ≤ 1 :=
+  feedAll_single_abort c hopen cs
+
+/-- … and when an Abort is written the very next output is `close`, and that is the end of what
+the connection does with received data -/
+theorem C15_abort_then_close (c : Conn) (hopen : c.closed = false) (cs : List Bytes)
+    (pre post : List Out) (w : Bytes) (hw : (Out.write w).isAbortWrite = true)
+    (h : (feedAll c cs).2 = pre ++ .write w :: post) : post = [.close] := by
+  obtain ⟨init, tail, e, hb, hcase⟩ := feedAll_shape cs c hopen
+  have hmem : Out.write w ∈ init ++ tail := by rw [← e, h]; simp
+  have hnot : Out.write w ∉ init := by
+    intro hin
+    have := (hb _ hin).not_abortWrite
+    rw [hw] at this; cases this
+  rcases hcase with ⟨htail, _⟩ | ⟨hst, _⟩
+  · subst htail
+    simp only [List.append_nil] at hmem
+    exact absurd hmem hnot
+  · cases hst with
+    | peer k =>
+      rcases List.mem_append.mp hmem with hm | hm
+      · exact absurd hm hnot
+      · simp at hm
+    | abort t bad =>
+      -- the tail is `[.write w', .close]`; `.write w` can only be its head
+      unfold abortOuts sendMessage at e hmem
+      split at e
+      · rename_i b hb'
+        have hwb : w = b := by
+          rcases List.mem_append.mp hmem with hm | hm
+          · exact absurd hm hnot
+          · simp only [hb', List.cons_append, List.nil_append, List.mem_cons, Out.write.injEq,
+              reduceCtorEq, List.not_mem_nil, or_false] at hm
+            exact hm
+        subst hwb
+        -- split `init ++ [.write w, .close]` at the `.write w` that is not in `init`
+        have key : ∀ (init pre post : List Out), Out.write w ∉ init →
+            pre ++ .write w :: post = init ++ [.write w, .close] → post = [.close] := by
+          intro init
+          induction init with
+          | nil =>
+            intro pre post _ h
+            cases pre with
+            | nil => simp at h; exact h
+            | cons p ps =>
+              simp only [List.cons_append, List.nil_append, List.cons.injEq] at h
+              obtain ⟨_, h2⟩ := h
+              cases ps with
+              | nil => simp at h2
+              | cons q qs => simp at h2
+          | cons i is ih =>
+            intro pre post hni h
+            cases pre with
+            | nil =>
+              simp only [List.nil_append, List.cons_append, List.cons.injEq] at h
+              exact absurd (h.1 ▸ List.mem_cons_self) hni
+            | cons p ps =>
+              simp only [List.cons_append, List.cons.injEq] at h
+              exact ih ps post (fun hm => hni (List.mem_cons_of_mem _ hm)) h.2
+        exact key init pre post hnot (by rw [← h, e]; simp)
+      · rename_i hb'
+        rcases List.mem_append.mp hmem with hm | hm
+        · exact absurd hm hnot
+        · simp [hb'] at hm
+
+/-- **C15 (a rejected CSM does not open the gate), the message.** A CSM with an unknown critical
+option leaves the remote settings exactly as they were — unset, if no CSM had been accepted
+before — and closes the connection (with the Abort naming the option). -/
+theorem C15_rejected_csm_does_not_open_the_gate (c : Conn) (m : Msg) (hcode : m.code = codeCSM)
+    (hcrit : ¬ noCritical m.opts) :
+    (processSignaling c m).1.csm = c.csm ∧ (processSignaling c m).1.closed = true ∧
+    ∃ n, n % 2 = 1 ∧ (∃ o ∈ m.opts, o.num = n) ∧
+      (processSignaling c m).2 = abortOuts txtOptNotSupported (some n) := by
+  obtain ⟨n, hodd, hmem, hpost⟩ := csmOpts_critical (c.csm.getD {}) hcrit
+  have hc : csmOpts (c.csm.getD {}) m.opts = ((csmOpts (c.csm.getD {}) m.opts).1, some n) :=
+    Prod.ext rfl hpost
+  rw [ps_csm_bad hcode hc]
+  exact ⟨rfl, by simp [abortOuts_any_close], n, hodd, hmem, rfl⟩
+
+/-- **… the stream.** A new connection whose peer starts with a CSM carrying an unknown critical
+option, followed by any bytes at all (requests, for instance), cut into chunks in any way:
+the endpoint sends the Abort naming the option, closes, and does nothing else — in particular
+nothing is dispatched, and no CSM counts as received. -/
+theorem C15_rejected_csm_stream (M : Nat) (m : Msg) (b rest : Bytes) (cs : List Bytes)
+    (hb : Rfc8323.Message b m) (hm : m.legal) (hcode : m.code = codeCSM)
+    (hcrit : ¬ noCritical m.opts) (hsz : b.length ≤ M) (hcut : cs.flatten = b ++ rest) :
+    ∃ n, n % 2 = 1 ∧ (∃ o ∈ m.opts, o.num = n) ∧
+      (feedAll (fresh M) cs).2 = abortOuts txtOptNotSupported (some n) ∧
+      dispatched (feedAll (fresh M) cs).2 = [] ∧
+      (feedAll (fresh M) cs).1.csm = none ∧ (feedAll (fresh M) cs).1.closed = true := by
+  obtain ⟨h1, _, t, h3, _⟩ := C15_chunking_independent M cs
+  have hsp : ((fresh M).app (b ++ rest)).spool = b ++ rest := by simp [fresh, connectionMade]
+  obtain ⟨_, hstep⟩ := step_of_frame (c := (fresh M).app (b ++ rest)) hsp hb hm
+    (by simpa [fresh, connectionMade] using hsz)
+  have h224 : m.code ≥ 224 := by rw [hcode]; decide
+  obtain ⟨g1, g2, n, hodd, hmem, g3⟩ :=
+    C15_rejected_csm_does_not_open_the_gate (((fresh M).app (b ++ rest)).consume b.length) m
+      hcode hcrit
+  simp only [h224, ↓reduceIte, g2] at hstep
+  have hfeed : feed (fresh M) (b ++ rest) =
+      ((processSignaling (((fresh M).app (b ++ rest)).consume b.length) m).1,
+       abortOuts txtOptNotSupported (some n)) := by
+    rw [feed_eq, drain_eq, hstep, g3]
+  rw [hcut, hfeed] at h1 h3
+  have hcsm : (feedAll (fresh M) cs).1.csm = none := by
+    have : (processSignaling (((fresh M).app (b ++ rest)).consume b.length) m).1.csm
+        = (feedAll (fresh M) cs).1.csm := by rw [h3]
+    rw [← this, g1]; rfl
+  have hcl : (feedAll (fresh M) cs).1.closed = true := by
+    have : (processSignaling (((fresh M).app (b ++ rest)).consume b.length) m).1.closed
+        = (feedAll (fresh M) cs).1.closed := by rw [h3]
+    rw [← this, g2]
+  exact ⟨n, hodd, hmem, h1, by rw [h1]; exact dispatched_nil_of_no_dispatch (abortOuts_no_dispatch _ _),
+    hcsm, hcl⟩
+
+/-- **… the gate.** The remote settings get set only in an iteration of the receive loop that
+takes a complete, parsable CSM frame *without critical options* off the spool (and outputs
+nothing); with `C15_no_dispatch_before_csm` — nothing is dispatched while they are unset — no
+request or response is dispatched unless such a CSM came first. -/
+theorem C15_gate_opened_only_by_accepted_csm (c c' : Conn) (o : List Out)
+    (hstep : step c = .next c' o ∨ step c = .stop c' o) (hset : c'.csm ≠ c.csm) :
+    ∃ to tkl len m, extractSize c.spool = some (to, tkl, len) ∧
+      to + tkl + len ≤ c.spool.length ∧
+      decodeMessage (c.spool.take (to + tkl + len)) = some m ∧
+      m.code = codeCSM ∧ noCritical m.opts ∧ o = [] := by
+  have sig : ∀ to tkl len m, extractSize c.spool = some (to, tkl, len) →
+      to + tkl + len ≤ c.spool.length →
+      decodeMessage (c.spool.take (to + tkl + len)) = some m →
+      (processSignaling (c.consume (to + tkl + len)) m).1 = c' →
+      (processSignaling (c.consume (to + tkl + len)) m).2 = o →
+      ∃ to tkl len m, extractSize c.spool = some (to, tkl, len) ∧
+        to + tkl + len ≤ c.spool.length ∧
+        decodeMessage (c.spool.take (to + tkl + len)) = some m ∧
+        m.code = codeCSM ∧ noCritical m.opts ∧ o = [] := by
+    intro to tkl len m hx hl hd e1 e2
+    rcases (processSignaling_csm (c.consume (to + tkl + len)) m).2 with ⟨a, b, c0⟩ | hsame
+    · exact ⟨to, tkl, len, m, hx, hl, hd, a, b, by rw [← e2, c0]⟩
+    · rw [e1] at hsame
+      exact absurd hsame hset
+  rcases step_cases c with ⟨hw, _⟩ | ⟨_, _, _, _, _, hs⟩ | ⟨_, _, _, _, _, _, _, hs⟩ |
+    ⟨to, tkl, len, m, hx, _, hl, hd, ⟨_, _, hs⟩ | ⟨_, _, hs⟩ | ⟨_, _, hs⟩ | ⟨_, _, hs⟩⟩
+  · rw [hw] at hstep; rcases hstep with h | h <;> cases h
+  · rw [hs] at hstep
+    rcases hstep with h | h
+    · cases h
+    · simp only [Step.stop.injEq] at h; exact absurd (by rw [← h.1]; rfl) hset
+  · rw [hs] at hstep
+    rcases hstep with h | h
+    · cases h
+    · simp only [Step.stop.injEq] at h; exact absurd (by rw [← h.1]; rfl) hset
+  · rw [hs] at hstep
+    rcases hstep with h | h
+    · cases h
+    · simp only [Step.stop.injEq] at h; exact sig to tkl len m hx hl hd h.1 h.2
+  · rw [hs] at hstep
+    rcases hstep with h | h
+    · simp only [Step.next.injEq] at h; exact sig to tkl len m hx hl hd h.1 h.2
+    · cases h
+  · rw [hs] at hstep
+    rcases hstep with h | h
+    · cases h
+    · simp only [Step.stop.injEq] at h; exact absurd (by rw [← h.1]; rfl) hset
+  · rw [hs] at hstep
+    rcases hstep with h | h
+    · simp only [Step.next.injEq] at h; exact absurd (by rw [← h.1]; rfl) hset
+    · cases h
 
 /-- **C15 (critical option in a CSM, at the receive loop).** For a connection with well-formed
 bytes in the spool and a maximum message size below 2^64: a complete in-limit CSM frame with an
-odd-numbered option is consumed, and the first outputs are Abort ("Option not supported",
-Bad-CSM-Option = that number) and close.  No assumption on the option number is needed: inside a
-frame it is below 65805 times the frame length. -/
+odd-numbered option is consumed, the outputs are Abort ("Option not supported", Bad-CSM-Option =
+that number) and close and nothing else, the receive loop returns and the CSM is not recorded.
+No assumption on the option number is needed: inside a frame it is below 65805 times the frame
+length. -/
 theorem C15_critical_csm_option_frame_aborts (c : Conn) (to tkl len : Nat) (m : Msg)
     (hwf : c.spool.wf) (hmax : c.maxSize < 2 ^ 64)
     (hx : extractSize c.spool = some (to, tkl, len)) (hfit : to + tkl + len ≤ c.maxSize)
     (hcomplete : to + tkl + len ≤ c.spool.length)
     (hd : decodeMessage (c.spool.take (to + tkl + len)) = some m)
     (hcode : m.code = codeCSM) (hcrit : ¬ noCritical m.opts) :
-    ∃ n w post c', step c = .next c' (.write w :: .close :: post) ∧ c'.closed = true ∧
+    ∃ n w c', step c = .stop c' [.write w, .close] ∧ c'.closed = true ∧ c'.csm = c.csm ∧
       n % 2 = 1 ∧ (∃ o ∈ m.opts, o.num = n) ∧
       Rfc8323.Message w (abortMsg txtOptNotSupported (some n)) := by
   have hnum : ∀ o ∈ m.opts, (minBE o.num).length < 13 := by
@@ -543,14 +853,14 @@ theorem C15_critical_csm_option_frame_aborts (c : Conn) (to tkl len : Nat) (m : 
     have h2 : (c.spool.take (to + tkl + len)).length ≤ c.maxSize := by
       simp only [List.length_take]; omega
     exact minBE_small (Nat.le_trans h1 (Nat.mul_le_mul_left _ h2)) hmax
-  obtain ⟨n, w, post, h1, h2, h3, h4, h5⟩ :=
+  obtain ⟨n, w, h1, h2, h3, h4, h4', h5⟩ :=
     C15_critical_csm_option_aborts (c.consume (to + tkl + len)) m hcode hcrit hnum
-  refine ⟨n, w, post, _, ?_, h4, h1, h2, h5⟩
+  refine ⟨n, w, _, ?_, h4, h4', h1, h2, h5⟩
   have a : ¬ to + tkl + len > c.maxSize := by omega
   have b : ¬ to + tkl + len > c.spool.length := by omega
   have h224 : m.code ≥ 224 := by rw [hcode]; decide
   unfold step
-  simp only [hx, a, b, ↓reduceIte, hd, h224, h3]
+  simp only [hx, a, b, ↓reduceIte, hd, h224, h3, h4]
 
 /-- **C15 (the receive path never fails to serialise).** With well-formed input bytes and a
 maximum message size below 2^64, `_serialize` never raises for the messages the connection sends
@@ -614,12 +924,46 @@ example : (session 1048576 [[0x40, 225, 0x22, 4], [128, 0x20, 0x61, 1, 5, 0xB1, 
       [105, 0, 0, 0x31, 69, 5, 255, 104, 105, 1, 226, 7]]).2 =
     [.write [0x50, 225, 0x23, 16, 0, 0, 0x20], .request exampleGet, .response exampleResp,
      .write [1, 227, 7]] := by decide
-/-- Release, then a request in the same chunk (still drained) and one in the next (never seen) -/
+/-- Release, then a request in the same chunk and one in the next: neither is looked at -/
 example : (session 1048576 [[0, 225], [0, 228, 0, 1], [0, 2]]).2 =
     [.write [0x50, 225, 0x23, 16, 0, 0, 0x20], .failPending .released, .close,
-     .request { code := 1, token := [], opts := [], payload := [] }, .failPending .lost] := by decide
-example : uptoClose (session 1048576 [[0, 225], [0, 228, 0, 1], [0, 2]]).2 =
-    uptoClose (session 1048576 [[0, 225, 0, 228], [0, 1, 0, 2]]).2 := by decide
+     .failPending .lost] := by decide
+example : (session 1048576 [[0, 225], [0, 228, 0, 1], [0, 2]]).2 =
+    (session 1048576 [[0, 225, 0, 228], [0, 1, 0, 2]]).2 := by decide
+/-- the reviewer's inputs: a CSM with critical option 1 followed by a GET in the same chunk —
+Abort, close, and the GET is not dispatched (the rejected CSM did not open the gate); a Ping with
+a critical option followed by a GET — one Abort, no Pong, no dispatch -/
+example : (session 1048576 [[0x10, 225, 0x10, 1, 1, 0xBB]]).2 =
+    [.write [0x50, 225, 0x23, 16, 0, 0, 0x20],
+     .write (208 :: 10 :: 229 :: 0x21 :: 1 :: 255 :: txtOptNotSupported), .close,
+     .failPending .lost] ∧
+    (session 1048576 [[0x10, 225, 0x10, 1, 1, 0xBB]]).1.csm = none := by decide
+example : (session 1048576 [[0, 225], [0x10, 226, 0x10, 1, 1, 0xAA]]).2 =
+    [.write [0x50, 225, 0x23, 16, 0, 0, 0x20],
+     .write (208 :: 11 :: 229 :: 255 :: txtUnknownCritical), .close, .failPending .lost] := by
+  decide
+/-- two critical options in one CSM: one Abort (naming the first) -/
+example : (session 1048576 [[0x20, 225, 0x10, 0x20]]).2 =
+    [.write [0x50, 225, 0x23, 16, 0, 0, 0x20],
+     .write (208 :: 10 :: 229 :: 0x21 :: 1 :: 255 :: txtOptNotSupported), .close,
+     .failPending .lost] := by decide
+/-- the state after a close differs by the dead spool only: uncut, the GET behind the Release is
+spooled; cut, it is never delivered -/
+example : (session 1048576 [[0, 225, 0, 228, 0, 1]]).1.spool = [0, 1] ∧
+    (session 1048576 [[0, 225, 0, 228], [0, 1]]).1.spool = [] ∧
+    (session 1048576 [[0, 225, 0, 228, 0, 1]]).1.live =
+      (session 1048576 [[0, 225, 0, 228], [0, 1]]).1.live := by decide
+/-- a GET with No-Response 26 keeps the option on the wire (option 258 = delta 247 after 11:
+0xD1 0xEA); a 2.05 with the marker 26 is dropped, with 24 it is sent without the option -/
+example : poolSend { code := 1, token := [1], opts := [⟨11, [120]⟩, ⟨258, [26]⟩], payload := [] } =
+    [.write [0x51, 1, 1, 0xB1, 120, 0xD1, 0xEA, 26]] := by decide
+example : poolSend { code := 69, token := [1], opts := [⟨258, [26]⟩], payload := [104] } = [] ∧
+    poolSend { code := 69, token := [1], opts := [⟨258, [24]⟩], payload := [104] } =
+      [.write [0x21, 69, 1, 255, 104]] := by decide
+/-- `Out.isAbortWrite` recognises the Abort frames and not the Pong or the CSM -/
+example : (Out.write (208 :: 11 :: 229 :: 255 :: txtUnknownCritical)).isAbortWrite = true ∧
+    (Out.write [1, 227, 7]).isAbortWrite = false ∧
+    (Out.write [0x50, 225, 0x23, 16, 0, 0, 0x20]).isAbortWrite = false := by decide
 /-- a request before the CSM: Abort "No CSM received" -/
 example : (feed (fresh 1048576) [0, 1]).2 =
     [.write (208 :: 3 :: 229 :: 255 :: txtNoCsm), .close] := by decide
